@@ -855,9 +855,20 @@ impl Scenario for C11Threads {
     // the subject scenario's histories without the subject-level unsubscribe
     loop {
       let v = C06Threads.generate(rng, tier);
-      let c: TCase = serde_json::from_value(v.clone()).unwrap();
+      let mut c: TCase = serde_json::from_value(v.clone()).unwrap();
       if !c.threads.iter().flatten().any(|o| matches!(o, TOp::UnsubSubject)) {
-        return v;
+        // one case in three starts with nobody subscribed: the first subscribe
+        // (which connects the source) then races the other threads' operations
+        if rng.chance(1, 3) {
+          c.stable = 0;
+          c.leavers = 0;
+          for t in c.threads.iter_mut() {
+            if rng.chance(1, 2) {
+              t.insert(0, TOp::Subscribe);
+            }
+          }
+        }
+        return serde_json::to_value(c).unwrap();
       }
     }
   }
